@@ -281,6 +281,117 @@ class TreeVariantValid(ValidateBase):
                                                                        (" under parent %r" % inputs["parent_uid"]) if self.wp else "")
 
 
+
+class ScanValidatorAny(Contract):
+    """validators that SCAN a table of unbounded size (pyvc/anycoll.py, witness rule): treeinfo Images._validate_image_paths over
+    {platform: {image: path}}, Images._validate_platforms over the platform keys against [tree] platforms, Checksums._validate_checksum_paths
+    over {path: checksum} -- any number of platforms / images / checksum entries, every iteration order.  Return means EVERY entry satisfies
+    the rule (stated over the arbitrary witness entry), refusal is a ValueError at SOME offending entry, nothing is changed."""
+    SPECS = {
+        "image_paths": (("treeinfo", "Images"), "_validate_image_paths", "images", 2),
+        "platforms": (("treeinfo", "Images"), "_validate_platforms", "images", 1),
+        "checksum_paths": (("treeinfo", "Checksums"), "_validate_checksum_paths", "checksums", 1),
+    }
+
+    def __init__(self, src, T, which):
+        self.src, self.T, self.which = src, T, which
+        cls, meth, attr, depth = self.SPECS[which]
+        self.name = "productmd.%s.%s.%s[table of arbitrary size]" % (cls[0], cls[1], meth)
+        self.key = "scan:%s.%s.%s" % (cls[0], cls[1], meth)
+
+    def setup(self, E):
+        from pyvc.anycoll import AnyDict, AnySet
+        cls, meth, attr, depth = self.SPECS[self.which]
+        ti = E.instantiate(("treeinfo", "TreeInfo"))
+        o = ti.fields["images"] if cls[1] == "Images" else ti.fields["checksums"]
+
+        def text(E_, key, tag):
+            return SV(sym.Val.VStr(E_.fresh("value.%s" % tag, sym.S)))
+        if depth == 2:
+            table = AnyDict("table", lambda E_, key, tag: AnyDict("inner", text))
+        else:
+            table = AnyDict("table", text)
+        o.fields[attr] = table
+        st = {"o": o, "table": table, "mark": len(E.path.effects), "ti": ti}
+        if self.which == "platforms":
+            listed = AnySet("tree.platforms", None)
+            ti.fields["tree"].fields["platforms"] = listed
+            st["listed"] = listed
+        return st
+
+    def call(self, E, st):
+        return E.call(E.getattr_(st["o"], self.SPECS[self.which][1]), [])
+
+    def post(self, E, st, out):
+        from pyvc.anycoll import AnyDict, AnySet, AnyItems
+        wit = getattr(E.path, "witnesses", [])
+        writes = [w for w in E.path.effects[st["mark"]:] if w[0] in ("any_write", "attr_write", "dict_write", "set_write", "list_write")
+                  and (w[0] == "any_write" or w[1] is st["o"])]
+        depth = self.SPECS[self.which][3]
+
+        def bad(entry):
+            if self.which == "platforms":
+                from pyvc.anycoll import member_key
+                bit = st["listed"].member_bits.get(member_key(entry))
+                return Not(bit) if bit is not None else True
+            path = entry[1] if self.which == "image_paths" else entry
+            return sym.startswith(path, "/")
+        if out.kind == "raise":
+            ex = [x for kind, c, x in wit if kind == "exit"]
+            return {"raises_ValueError": out.exc_cls is ValueError, "raises_only_at_an_offending_entry": bad(ex[-1]) if ex else False,
+                    "nothing_changed": not writes}
+        # whole-table witness chain
+        coll = st["table"]
+        entry, ok = None, True
+        for lvl in range(depth):
+            ws = [x for kind, c, x in wit if kind == "all" and (c is coll or (isinstance(c, AnyItems) and c.d is coll))]
+            if not ws:
+                ok = False
+                break
+            x = ws[-1]
+            if x is None:
+                break
+            if lvl == depth - 1:
+                entry = x
+            else:
+                coll = [e[2] for e in coll.known if e[0] is x][0]
+        return {"returns_only_if_every_entry_satisfies_the_rule": And(ok, Not(bad(entry)) if entry is not None else True),
+                "nothing_changed": not writes}
+
+    def concretise(self, model, st):
+        return None
+
+    def sample_inputs(self, rng):
+        for n in (0, 1, 3):
+            for badpos in (None, 0, n - 1):
+                if badpos is not None and (n == 0 or badpos < 0):
+                    continue
+                yield {"n": n, "bad": badpos}
+
+    def native_eval(self, inputs):
+        TI = self.src.mods["treeinfo"]
+        ti = TI.TreeInfo()
+        n, badpos = inputs["n"], inputs["bad"]
+        names = ["e%d" % i for i in range(n)]
+        if self.which == "image_paths":
+            plats = ["xen", "x86_64", "aarch64", "ppc64le"]
+            ti.images.images = dict((plats[i], {"kernel": ("/abs/k%d" % i) if i == badpos else "rel/k%d" % i, "initrd": "rel/i"}) for i in range(n))
+            o = ti.images
+        elif self.which == "platforms":
+            ti.images.images = dict(("plat%d" % i, {"kernel": "k"}) for i in range(n))
+            ti.tree.platforms = set("plat%d" % i for i in range(n) if i != badpos)
+            o = ti.images
+        else:
+            ti.checksums.checksums = dict((("/abs/%s" % x) if i == badpos else "rel/%s" % x, ("sha256", "0" * 64)) for i, x in enumerate(names))
+            o = ti.checksums
+        nat = native_call(getattr(o, self.SPECS[self.which][1]))
+        if nat[0] == "raise":
+            return nat, {"raises_ValueError": nat[1] is ValueError, "raises_only_at_an_offending_entry": badpos is not None}
+        return nat, {"returns_only_if_every_entry_satisfies_the_rule": badpos is None}
+
+    def describe(self, inputs):
+        return "%s on a table of %d entries%s" % (self.name, inputs["n"], "" if inputs["bad"] is None else ", entry #%d offending" % inputs["bad"])
+
 def contracts(src, T):
     return [ComposeVariantValid(src, T, False), ComposeVariantValid(src, T, True), TreeImagesValid(src, T), TreeChecksumsValid(src, T),
-            TreeVariantValid(src, T, False), TreeVariantValid(src, T, True)]
+            TreeVariantValid(src, T, False), TreeVariantValid(src, T, True)] + [ScanValidatorAny(src, T, w) for w in ScanValidatorAny.SPECS]
